@@ -12,7 +12,8 @@
   identifiers (`fresh…` parameters); signatures are "present with these two algorithm URIs"
   (ideal crypto, the SP side is `Sp.Sig`); the released attributes and their wire form are a
   parameter `W` (attribute release is C10, the converters are C17); encryption is C16 (the
-  `encrypt_assertion = False` branch of `_response` only).  Times are `Int` seconds.
+  `encrypt_assertion = False` branch of `_response` only); a caller's `farg=` tree is reduced to the
+  record `Farg` (what is preset on the paths the code reads).  Times are `Int` seconds.
 -/
 import PysamlModel.Model.Sp
 
@@ -104,6 +105,10 @@ structure Defaults where
   nameidFormat : String           -- Policy.get_nameid_format default
   persistent : String             -- saml.NAMEID_FORMAT_PERSISTENT
   email : String                  -- saml.NAMEID_FORMAT_EMAILADDRESS
+  bearer : String                 -- saml.SCM_BEARER
+  holderOfKey : String            -- saml.SCM_HOLDER_OF_KEY
+  senderVouches : String          -- saml.SCM_SENDER_VOUCHES
+  statusSuccess : String          -- samlp.STATUS_SUCCESS (success_status_factory)
 deriving Repr, Inhabited
 
 structure Cfg where
@@ -129,10 +134,32 @@ structure NameId where
   text : String := ""
 deriving Repr, DecidableEq, Inhabited
 
-/-- The `authn` dictionary (keys of AUTHN_DICT_MAP that decide whether a statement is made). -/
+/-- The `authn` dictionary (keys of AUTHN_DICT_MAP that decide whether a statement is made and which
+    AuthnContext it gets).  `decl` = an AuthnContextDecl instance is supplied under "decl". -/
 structure Authn where
   classRef : Option String := none
   authnAuth : Option String := none
+  decl : Bool := false
+deriving Repr, DecidableEq, Inhabited
+
+/-- A caller-supplied, non-empty assertion argument tree (`farg=`), reduced to what `update_farg`,
+    `do_subject` and `do_subject_confirmation` read from it: the values found (and not `None`) at
+    assertion/subject/subject_confirmation/{method, subject_confirmation_data/*}.
+    `malformed` = some node on those paths is not a dictionary (`is_set` raises TypeError). -/
+structure Farg where
+  malformed : Bool := false
+  method : Option String := none
+  recipient : Option String := none
+  irt : Option String := none
+  address : Option String := none
+  notBefore : Option Int := none
+  notOnOrAfter : Option Int := none      -- overwritten by do_subject_confirmation
+deriving Repr, DecidableEq, Inhabited
+
+/-- A caller-supplied `status=` (a samlp.Status instance): top-level and second-level code. -/
+structure StatusArg where
+  top : String
+  second : Option String := none
 deriving Repr, DecidableEq, Inhabited
 
 /-- Arguments of `create_authn_response` (+ what it reads from its surroundings: clock, IdentDB).
@@ -151,6 +178,8 @@ structure Args (W : Type) where
   digestAlg : Option String := none
   sessionNooa : Option Int := none
   releasePolicy : Option Restrictions := none   -- `release_policy=` (a Policy object)
+  farg : Option Farg := none                     -- `farg=`; `none` = None or {} (falsy)
+  status : Option StatusArg := none              -- `status=`
   stored : List NameId := []                     -- NameIDs the IdentDB holds for `userid`, in order
   now : Int := 0                                 -- the clock
   freshId : String := ""                         -- what `create_id` would return next
@@ -170,13 +199,15 @@ structure Conf where
   irt : Option String
   nb : Option Int
   nooa : Option Int
+  address : Option String := none
 deriving Repr, DecidableEq, Inhabited
 
 structure AuthnOut where
   classRef : Option String
-  authnAuth : Option String
+  authnAuth : Option String          -- text of the AuthenticatingAuthority element, if there is one
   sessionNooa : Option Int
   sessionIndex : Option String
+  decl : Bool := false               -- the AuthnContext carries an AuthnContextDecl
 deriving Repr, DecidableEq, Inhabited
 
 structure IssuedAssertion (W : Type) where
@@ -198,11 +229,15 @@ structure Issued (W : Type) where
   issueInstant : Int
   sig : Option SigInfo
   assertions : List (IssuedAssertion W)
+  statusTop : String
+  statusSecond : Option String := none
 deriving Repr, DecidableEq
 
 /-- Exceptions that leave `create_authn_response` (no Response is created). -/
 inductive Refusal where
   | sigAlgNotAllowed | digestAlgNotAllowed | emailNoDomain
+  | fargMalformed      -- TypeError out of argtree.is_set
+  | hokNoKeyInfo       -- holder-of-key preset: do_subject_confirmation adds the (absent) key_info
 deriving Repr, DecidableEq, Inhabited
 
 /-! ### the NameID (`gather_authn_response_args`, ident.py) -/
@@ -272,11 +307,49 @@ def authnOut {W : Type} (a : Args W) : List AuthnOut :=
   match a.authn with
   | none => []
   | some x =>
-    if truthy x.authnAuth || truthy x.classRef then
-      [{ classRef := if truthy x.classRef then x.classRef else none,
-         authnAuth := if truthy x.classRef && truthy x.authnAuth then x.authnAuth else none,
-         sessionNooa := a.sessionNooa, sessionIndex := some a.freshSession }]
+    if truthy x.authnAuth || truthy x.classRef || x.decl then
+      if truthy x.classRef then
+        -- _authn_context_class_ref: the authority only when truthy
+        [{ classRef := x.classRef, authnAuth := if truthy x.authnAuth then x.authnAuth else none,
+           sessionNooa := a.sessionNooa, sessionIndex := some a.freshSession }]
+      else if x.decl then
+        -- _authn_context_decl: an AuthenticatingAuthority element always (text None = empty element)
+        [{ classRef := none, authnAuth := some (x.authnAuth.getD ""),
+           sessionNooa := a.sessionNooa, sessionIndex := some a.freshSession, decl := true }]
+      else
+        -- a statement without AuthnContext
+        [{ classRef := none, authnAuth := none, sessionNooa := a.sessionNooa, sessionIndex := some a.freshSession }]
     else []
+
+/-! ### the confirmation (`update_farg`, `do_subject`, `do_subject_confirmation`) -/
+
+/-- the Method URI as the SP model classifies it -/
+def methodOf (d : Defaults) (m : String) : Sp.Method :=
+  if m == d.bearer then .bearer
+  else if m == d.holderOfKey then .holderOfKey
+  else if m == d.senderVouches then .senderVouches
+  else .other
+
+/-- `update_farg`: each of method / in_response_to / recipient is filled in iff the caller's tree does
+    not preset it (a falsy tree: all three); `do_subject_confirmation` then sets NotOnOrAfter to the
+    policy expiry whatever the tree says.  Other confirmation data (Address, NotBefore) pass through. -/
+def confOf {W : Type} (d : Defaults) (a : Args W) (nooa : Int) : Conf :=
+  let f : Farg := a.farg.getD {}
+  { method := match f.method with | some m => methodOf d m | none => .bearer
+    recipient := some (f.recipient.getD a.destination)
+    irt := some (f.irt.getD a.inResponseTo)
+    nb := f.notBefore
+    nooa := some nooa
+    address := f.address }
+
+/-- What makes `setup_assertion` / `Assertion.construct` raise because of the tree. -/
+def fargRefusal {W : Type} (d : Defaults) (a : Args W) : Option Refusal :=
+  match a.farg with
+  | none => none
+  | some f =>
+    if f.malformed then some .fargMalformed
+    else if f.method == some d.holderOfKey then some .hokNoKeyInfo
+    else none
 
 /-- The lifetime in seconds `Policy.not_on_or_after(sp_entity_id)` adds to the clock. -/
 def lifetimeFor (d : Defaults) (cfg : Cfg) (policy : Restrictions) (sp : String) : Int :=
@@ -287,7 +360,13 @@ def sigInfo {W : Type} (d : Defaults) (cfg : Cfg) (a : Args W) : SigInfo :=
   { sigAlg := orElse a.signAlg (orElse cfg.signingAlg d.sigAlg),
     digestAlg := orElse a.digestAlg (orElse cfg.digestAlg d.digestAlg) }
 
-/-- `create_authn_response` (encrypt_assertion false, no `issuer=`/`farg=`/`status=` arguments). -/
+/-- `Entity._response`: `if not status: status = success_status_factory()`. -/
+def statusTopOf {W : Type} (d : Defaults) (a : Args W) : String :=
+  match a.status with
+  | some st => st.top
+  | none => d.statusSuccess
+
+/-- `create_authn_response` (encrypt_assertion false, no `issuer=`/`authn_statement=` arguments). -/
 def create {W : Type} (d : Defaults) (cfg : Cfg) (a : Args W) : Except Refusal (Issued W) :=
   let policy : Restrictions := a.releasePolicy.getD cfg.policy
   let signAssertion := resolve a.signAssertion cfg.signAssertion d.signAssertion
@@ -295,14 +374,16 @@ def create {W : Type} (d : Defaults) (cfg : Cfg) (a : Args W) : Except Refusal (
   match chooseNameId d cfg policy a with
   | .error e => .error e
   | .ok nameId =>
+    match fargRefusal d a with
+    | some e => .error e
+    | none =>
     let nooa := a.now + lifetimeFor d cfg policy a.spEntityId
     let si := sigInfo d cfg a
     let assertion : IssuedAssertion W :=
       { issuer := some cfg.entityId
         sig := if signAssertion then some si else none
         nameId := some nameId
-        confs := [{ method := .bearer, recipient := some a.destination, irt := some a.inResponseTo,
-                    nb := none, nooa := some nooa }]
+        confs := [confOf d a nooa]
         condNb := some a.now
         condNooa := some nooa
         audiences := [[a.spEntityId]]
@@ -314,7 +395,9 @@ def create {W : Type} (d : Defaults) (cfg : Cfg) (a : Args W) : Except Refusal (
         inResponseTo := some a.inResponseTo
         issueInstant := a.now
         sig := sig
-        assertions := [assertion] }
+        assertions := [assertion]
+        statusTop := statusTopOf d a
+        statusSecond := a.status.bind (·.second) }
     -- Entity._response: `if to_sign and not sign`: assertion only (no allow-list test); `if sign`: Entity.sign
     if signResponse then
       if !d.sigAllowed.contains si.sigAlg then .error .sigAlgNotAllowed
@@ -339,7 +422,8 @@ def toSpAssertion {W : Type} (trusts : Bool) (x : IssuedAssertion W) : Sp.Assert
     subject := some { nameId := x.nameId.map (·.text),
                       confs := x.confs.map fun c =>
                         { method := c.method,
-                          data := some { nb := c.nb, nooa := c.nooa, recipient := c.recipient, irt := c.irt } } } }
+                          data := some { nb := c.nb, nooa := c.nooa, recipient := c.recipient, irt := c.irt,
+                                         address := c.address } } } }
 
 /-- The issued Response as the SP model's input. -/
 def toSp {W : Type} (trusts : Bool) (r : Issued W) : Sp.Response :=
@@ -349,6 +433,8 @@ def toSp {W : Type} (trusts : Bool) (r : Issued W) : Sp.Response :=
     destination := r.destination
     inResponseTo := r.inResponseTo
     issuer := r.issuer
+    statusTop := r.statusTop
+    statusSecond := r.statusSecond
     assertions := r.assertions.map (toSpAssertion trusts) }
 
 /-- Attribute converters as a parameter (C17): local ↔ wire. -/
